@@ -360,6 +360,29 @@ def run(cx, rep):
                    "%s calls FsModuleResolver::resolve_import while building the value that is cached per file: the cached ParsedModule freezes a file-system answer" % c.fn.id,
                    "%s:%s" % (c.file, c.line))
         rep.ob("C14.4", "scan", True, sample={"functions_reachable_from_parse_and_bind": len(pr), "host_queries": len(hits)})
+    # ---------------------------------------------------------------- C14.10
+    rep.rule("C14.10", "the JS side hands every update to the compiler session unconditionally, with the text it was given")
+    from rules.c16 import _must_exec
+    from rules import ts_common
+    n_fw = 0
+    for cn_, c_ in sorted(bundler_ts.classes.items()):
+        for mn_, m_ in sorted(c_.methods.items()):
+            fn_ = m_["function"]
+            if fn_.get("body") is None:
+                continue
+            calls_ = [x for x in tsast.walk(fn_) if x["type"] == "CallExpression" and tsast.s(x["callee"]).endswith(".update_file_content")]
+            if not calls_:
+                continue
+            n_fw += 1
+            ps_ = [p for p in ts_common.fn_params(fn_) if p]
+            def pred_(x, ps_=ps_):
+                return x["type"] == "CallExpression" and tsast.s(x["callee"]).endswith(".update_file_content") and \
+                    [tsast.s(a_["expression"]) for a_ in x["arguments"]] == ps_[:2]
+            ok_ = len(ps_) >= 2 and _must_exec(fn_["body"]["stmts"], pred_)
+            rep.ob("C14.10", "%s.%s/forwards-unconditionally" % (cn_, mn_), ok_,
+                   "%s.%s does not call the compiler's update_file_content(%s) on every normal path: an update that is skipped (equal to a cached text, empty, ..) leaves the session with the previous contents of the file - a cache on the JS side can hold a text the compiler never received (it is also filled when diagnostics are rendered)" % (cn_, mn_, ", ".join(ps_[:2])),
+                   bundler_ts.loc(fn_), sample={"method": "%s.%s" % (cn_, mn_)})
+    rep.floor("C14.10", "JS methods that forward updates to the wasm session", n_fw, 1)
     # ---------------------------------------------------------------- C14.6
     rep.rule("C14.6", "the watch loop forwards every change of a watched file to the compiler before rebuilding")
     cmd = cx.ts("packages/beff-wasm/ts-node/commandeer.ts")
